@@ -13,6 +13,9 @@ svars == <<queued, accepted, buf, closed, closes, nsent>>
 vars == <<svars, last, hist>>
 viewE == svars
 Msg(n) == [i \in 1..MsgLen |-> 10 * n + i]
+\* the harness's close handler tries to send one more byte (send_fast) when it is told about the
+\* close: on a closed worker that byte is only buffered, never written, and nothing is notified again
+Late == <<90>>
 Init == /\ queued = <<>> /\ accepted = <<>> /\ buf = <<>> /\ closed = FALSE /\ closes = 0 /\ nsent = 0
         /\ last = [a |-> "Init", args |-> [x |-> 0], exp |-> [x |-> 0]] /\ hist = <<>>
 Log(a, args) ==
@@ -41,7 +44,7 @@ SendFast(o) ==
             [] o.k = "part" -> /\ accepted' = accepted \o SubSeq(data, 1, o.n)
                                /\ buf' = SubSeq(data, o.n + 1, Len(data)) /\ UNCHANGED <<closed, closes>>
             [] o.k = "eagain" -> buf' = data /\ UNCHANGED <<accepted, closed, closes>>
-            [] o.k = "fatal" -> closed' = TRUE /\ closes' = closes + 1 /\ UNCHANGED <<accepted, buf>>
+            [] o.k = "fatal" -> closed' = TRUE /\ closes' = closes + 1 /\ buf' = Late /\ UNCHANGED accepted
      ELSE
        /\ o = [k |-> "full", n |-> MsgLen]          \* (socket not touched)
        /\ buf' = buf \o data
@@ -57,7 +60,7 @@ DoSend(o) ==
        [] o.k = "part" -> /\ accepted' = accepted \o SubSeq(buf, 1, o.n)
                           /\ buf' = SubSeq(buf, o.n + 1, Len(buf)) /\ UNCHANGED <<closed, closes>>
        [] o.k = "eagain" -> UNCHANGED <<accepted, buf, closed, closes>>
-       [] o.k = "fatal" -> closed' = TRUE /\ closes' = closes + 1 /\ UNCHANGED <<accepted, buf>>
+       [] o.k = "fatal" -> closed' = TRUE /\ closes' = closes + 1 /\ buf' = buf \o Late /\ UNCHANGED accepted
   /\ UNCHANGED <<queued, nsent>>
   /\ Log("DoSend", [o |-> o])
 
